@@ -1,11 +1,317 @@
-//! Broadcast SPMC scenarios (C07).
-use crate::scen::Scenario;
+//! Broadcast SPMC scenarios (C07): `fibre::spmc::bounded`, one producer, receivers R0 (+ R1 = clone).
+use crate::chan::Norm;
+use crate::oracle::{check_ledger, pair};
+use crate::rt::{self, oracle_fail, Id, Op, Res, P};
+use crate::scen::{Body, Scenario};
+use fibre::spmc::{BoundedSyncReceiver as Rx, BoundedSyncSender as Tx};
+use std::collections::BTreeMap;
 
 #[derive(Clone, Debug)]
-pub struct BcastScen {}
+pub enum BStep {
+    Send(Id),
+    TrySend(Id),
+    Recv,
+    TryRecv,
+    /// recv until Disconnected
+    Drain,
+    /// clone the thread's receiver; the clone becomes the thread's second receiver (handle 2)
+    CloneRx,
+    /// try_recv on both own receivers in turn (+ yield) until both are Disconnected
+    DrainBothTry,
+    DropRx,
+    JoinAll,
+}
 
-pub fn run_once(_b: &BcastScen) {}
+#[derive(Clone, Debug)]
+pub struct BThread {
+    pub tx: bool,
+    pub rx: Option<u8>,
+    pub steps: Vec<BStep>,
+}
+
+#[derive(Clone, Debug)]
+pub struct BcastScen {
+    pub cap: usize,
+    /// receivers that exist before anything is sent (R0, and R1 = R0.clone())
+    pub n_rx: u8,
+    pub threads: Vec<BThread>,
+}
+
+const MAX_DRAIN: usize = 10;
+
+fn run_thread(t: u8, prog: BThread, mut tx: Option<Tx<P>>, mut rx: Option<Rx<P>>, joins: &mut Vec<loom::thread::JoinHandle<()>>) {
+    let rh = prog.rx.unwrap_or(0);
+    let mut rx2: Option<Rx<P>> = None;
+    for step in prog.steps {
+        match step {
+            BStep::Send(id) => {
+                let op = Op::Send(id);
+                rt::log_call(t, 0, &op);
+                let r = tx.as_ref().expect("tx").send(P::new(id)).norm();
+                rt::log_ret(t, 0, &op, r, true);
+            }
+            BStep::TrySend(id) => {
+                let op = Op::TrySend(id);
+                rt::log_call(t, 0, &op);
+                let r = tx.as_ref().expect("tx").try_send(P::new(id)).norm();
+                rt::log_ret(t, 0, &op, r, true);
+            }
+            BStep::Recv => {
+                rt::log_call(t, rh, &Op::Recv);
+                let r = rx.as_ref().expect("rx").recv().norm();
+                rt::log_ret(t, rh, &Op::Recv, r, true);
+            }
+            BStep::TryRecv => {
+                rt::log_call(t, rh, &Op::TryRecv);
+                let r = rx.as_ref().expect("rx").try_recv().norm();
+                rt::log_ret(t, rh, &Op::TryRecv, r, true);
+            }
+            BStep::Drain => {
+                for _ in 0..MAX_DRAIN {
+                    rt::log_call(t, rh, &Op::Recv);
+                    let r = rx.as_ref().expect("rx").recv().norm();
+                    let done = r == Res::Disc;
+                    rt::log_ret(t, rh, &Op::Recv, r, true);
+                    if done {
+                        break;
+                    }
+                }
+            }
+            BStep::CloneRx => {
+                rt::log_call(t, 2, &Op::CloneRx);
+                rx2 = Some(rx.as_ref().expect("rx").clone());
+                rt::log_ret(t, 2, &Op::CloneRx, Res::Ok, false);
+            }
+            BStep::DrainBothTry => {
+                let mut done = [rx.is_none(), rx2.is_none()];
+                let mut last_empty = [false, false];
+                let mut rounds = 0;
+                while !(done[0] && done[1]) && rounds < 4 * MAX_DRAIN {
+                    rounds += 1;
+                    let mut progressed = false;
+                    for k in 0..2 {
+                        if done[k] {
+                            continue;
+                        }
+                        let (r, h) = if k == 0 { (rx.as_ref().unwrap(), rh) } else { (rx2.as_ref().unwrap(), 2) };
+                        rt::log_call(t, h, &Op::TryRecv);
+                        let res = r.try_recv().norm();
+                        let outcome = !(res == Res::Empty && last_empty[k]);
+                        last_empty[k] = res == Res::Empty;
+                        match res {
+                            Res::Disc => done[k] = true,
+                            Res::Val(_) => progressed = true,
+                            _ => {}
+                        }
+                        rt::log_ret(t, h, &Op::TryRecv, res, outcome);
+                    }
+                    if !progressed {
+                        loom::thread::yield_now();
+                    }
+                }
+            }
+            BStep::DropRx => drop_rx(t, rh, &mut rx),
+            BStep::JoinAll => join_all(t, joins),
+        }
+    }
+    if let Some(s) = tx.take() {
+        rt::log_call(t, 0, &Op::DropTx);
+        drop(s);
+        rt::log_ret(t, 0, &Op::DropTx, Res::Ok, false);
+    }
+    drop_rx(t, rh, &mut rx);
+    drop_rx(t, 2, &mut rx2);
+}
+
+fn drop_rx(t: u8, h: u8, rx: &mut Option<Rx<P>>) {
+    if let Some(r) = rx.take() {
+        rt::log_call(t, h, &Op::DropRx);
+        drop(r);
+        rt::log_ret(t, h, &Op::DropRx, Res::Ok, false);
+    }
+}
+fn join_all(t: u8, joins: &mut Vec<loom::thread::JoinHandle<()>>) {
+    for j in joins.drain(..) {
+        rt::log_call(t, 0, &Op::Join);
+        j.join().expect("join");
+        rt::log_ret(t, 0, &Op::Join, Res::Ok, false);
+    }
+}
+
+pub fn run_once(sc: &BcastScen) {
+    let (tx, rx0) = fibre::spmc::bounded::<P>(sc.cap);
+    let mut rxs: Vec<Option<Rx<P>>> = vec![None, None];
+    if sc.n_rx > 1 {
+        rxs[1] = Some(rx0.clone());
+    }
+    rxs[0] = Some(rx0);
+    let mut tx = Some(tx);
+    let mut owned = Vec::new();
+    for p in &sc.threads {
+        let t = if p.tx { tx.take() } else { None };
+        let r = p.rx.and_then(|h| rxs[h as usize].take());
+        owned.push((t, r));
+    }
+    let mut it = owned.into_iter();
+    let (tx0, rx0) = it.next().expect("main");
+    let mut joins = Vec::new();
+    for (i, (t, r)) in it.enumerate() {
+        let prog = sc.threads[i + 1].clone();
+        joins.push(loom::thread::spawn(move || {
+            let mut none = Vec::new();
+            run_thread((i + 1) as u8, prog, t, r, &mut none);
+        }));
+    }
+    run_thread(0, sc.threads[0].clone(), tx0, rx0, &mut joins);
+    join_all(0, &mut joins);
+    check(sc);
+}
+
+fn check(sc: &BcastScen) {
+    let log = rt::log_snapshot();
+    let ops = pair(&log);
+    // the sent sequence (single producer: program order)
+    let mut sent: Vec<(Id, usize, usize)> = Vec::new(); // id, call, ret
+    let mut tx_drop_call = usize::MAX;
+    for o in &ops {
+        match (&o.op, &o.res) {
+            (Op::Send(id) | Op::TrySend(id), Res::Ok) => sent.push((*id, o.call, o.ret)),
+            (Op::Send(id) | Op::TrySend(id), Res::Full(b) | Res::Closed(Some(b))) => {
+                if b != id {
+                    oracle_fail("C07", "handback_wrong_value", "try_send", &format!("sent {} got back {}", id, b));
+                }
+                if matches!(o.op, Op::Send(_)) && matches!(o.res, Res::Full(_)) {
+                    oracle_fail("C07", "blocking_send_reported_full", "send", "a waiting send returned Full");
+                }
+            }
+            (Op::DropTx, _) => tx_drop_call = o.call,
+            _ => {}
+        }
+    }
+    let sent_ids: Vec<Id> = sent.iter().map(|s| s.0).collect();
+    // receivers: handle -> (start index in the sent sequence, created at, drop call, values, drained)
+    struct R {
+        start: usize,
+        created: usize,
+        drop_call: usize,
+        got: Vec<(Id, usize)>, // value, call position of the receive
+        disc: Option<usize>,
+    }
+    let mut rs: BTreeMap<u8, R> = BTreeMap::new();
+    for h in 0..sc.n_rx {
+        rs.insert(h, R { start: 0, created: 0, drop_call: usize::MAX, got: vec![], disc: None });
+    }
+    for o in &ops {
+        match (&o.op, &o.res) {
+            (Op::CloneRx, _) => {
+                // the clone starts at its parent's position: what the parent (same thread) had received before
+                let parent = sc.threads[o.t as usize].rx.unwrap_or(0);
+                let start = rs.get(&parent).map(|r| r.start + r.got.len()).unwrap_or(0);
+                rs.insert(o.h, R { start, created: o.ret, drop_call: usize::MAX, got: vec![], disc: None });
+            }
+            (Op::Recv | Op::TryRecv, Res::Val(v)) => {
+                let r = rs.get_mut(&o.h).expect("receiver");
+                if let Some(d) = r.disc {
+                    oracle_fail("C07", "value_after_disconnected", "recv", &format!("R{} obtained {} after Disconnected at log position {}", o.h, v, d));
+                }
+                r.got.push((*v, o.call));
+            }
+            (Op::Recv | Op::TryRecv, Res::Disc) => {
+                if o.ret < tx_drop_call {
+                    oracle_fail("C07", "disconnected_while_sender_alive", "recv", &format!("R{} observed Disconnected before the sender started dropping", o.h));
+                }
+                let r = rs.get_mut(&o.h).expect("receiver");
+                if r.disc.is_none() {
+                    r.disc = Some(o.ret);
+                }
+            }
+            (Op::DropRx, _) => {
+                if let Some(r) = rs.get_mut(&o.h) {
+                    r.drop_call = o.call;
+                }
+            }
+            _ => {}
+        }
+    }
+    for (h, r) in &rs {
+        let got: Vec<Id> = r.got.iter().map(|g| g.0).collect();
+        let expect_all = &sent_ids[r.start.min(sent_ids.len())..];
+        let ok = if r.disc.is_some() { got[..] == expect_all[..] } else { got.len() <= expect_all.len() && got[..] == expect_all[..got.len()] };
+        if !ok {
+            let rule = if r.start > 0 || r.created > 0 { "clone_sequence_mismatch" } else { "sequence_mismatch" };
+            oracle_fail(
+                "C07",
+                rule,
+                "recv",
+                &format!("R{} (start position {}) received {:?}{} but the sender sent {:?}", h, r.start, got, if r.disc.is_some() { " then Disconnected" } else { "" }, sent_ids),
+            );
+        }
+    }
+    // back-pressure: the k-th send may complete only if every live receiver has at least started
+    // the receive that takes item k-cap
+    for (k0, (id, call, ret)) in sent.iter().enumerate() {
+        let k = k0 + 1;
+        if k <= sc.cap {
+            continue;
+        }
+        for (h, r) in &rs {
+            let live = r.created < *call && r.drop_call > *ret;
+            if !live {
+                continue;
+            }
+            let started = r.got.iter().filter(|g| g.1 < *ret).count();
+            if r.start + started + sc.cap < k {
+                oracle_fail(
+                    "C07",
+                    "overwrite_unread",
+                    "send",
+                    &format!("send #{} (value {}) completed while live receiver R{} had started only {} successful receives from position {} (capacity {})", k, id, h, started, r.start, sc.cap),
+                );
+            }
+        }
+    }
+    check_ledger("C09", "spmc_broadcast");
+}
+
+fn bt(tx: bool, rx: Option<u8>, steps: Vec<BStep>) -> BThread {
+    BThread { tx, rx, steps }
+}
+
+fn sc(name: &str, cap: usize, n_rx: u8, threads: Vec<BThread>, pb: (Option<usize>, Option<usize>)) -> Scenario {
+    let shape = format!("{}_cap{}", name, cap);
+    Scenario {
+        name: format!("spmc_broadcast/{}", shape),
+        component: "spmc_broadcast".into(),
+        shape,
+        props: vec!["C07", "C05", "C09"],
+        threads: threads.len(),
+        ops: threads.iter().map(|t| t.steps.len()).max().unwrap_or(0),
+        cap: cap.to_string(),
+        pb_quick: pb.0,
+        pb_thorough: pb.1,
+        body: Body::Bcast(BcastScen { cap, n_rx, threads }),
+    }
+}
 
 pub fn scenarios() -> Vec<Scenario> {
-    Vec::new()
+    use BStep::*;
+    let t2 = (Some(2), Some(3));
+    let t3 = (Some(1), Some(2));
+    vec![
+        sc("1p1c_send2_drain", 1, 1, vec![bt(false, Some(0), vec![TryRecv, Drain]), bt(true, None, vec![Send(1), Send(2)])], t2),
+        sc("1p1c_send3_drain", 2, 1, vec![bt(false, Some(0), vec![TryRecv, Drain]), bt(true, None, vec![Send(1), Send(2), Send(3)])], t2),
+        sc("1p1c_try_send2_drain", 1, 1, vec![bt(false, Some(0), vec![Drain]), bt(true, None, vec![TrySend(1), TrySend(2)])], t2),
+        sc("1p2c_send2_drain", 1, 2, vec![bt(true, None, vec![Send(1), Send(2)]), bt(false, Some(0), vec![Drain]), bt(false, Some(1), vec![Drain])], t3),
+        sc("1p2c_send2_drain", 2, 2, vec![bt(true, None, vec![Send(1), Send(2)]), bt(false, Some(0), vec![Drain]), bt(false, Some(1), vec![Drain])], t3),
+        // the only receiver goes away while the producer is parked on a full ring
+        sc("rxdrop_vs_parked_producer", 1, 1, vec![bt(true, None, vec![Send(1), Send(2)]), bt(false, Some(0), vec![DropRx])], t2),
+        sc("recv_rxdrop_vs_parked_producer", 1, 1, vec![bt(true, None, vec![Send(1), Send(2), Send(3)]), bt(false, Some(0), vec![Recv, DropRx])], t2),
+        // one receiver keeps up, the other never reads and is dropped: the producer must get through
+        sc("slow_rx_dropped_vs_parked_producer", 1, 2, vec![bt(true, None, vec![Send(1), Send(2)]), bt(false, Some(0), vec![Drain]), bt(false, Some(1), vec![DropRx])], t3),
+        // clone by the owner of the parent while the producer sends
+        sc("clone_vs_send2", 1, 1, vec![bt(true, None, vec![Send(1), Send(2)]), bt(false, Some(0), vec![TryRecv, CloneRx, DrainBothTry])], t2),
+        sc("clone_vs_send2", 2, 1, vec![bt(true, None, vec![Send(1), Send(2)]), bt(false, Some(0), vec![TryRecv, CloneRx, DrainBothTry])], t2),
+        // sender dropped while a receiver is parked
+        sc("txdrop_vs_recv", 1, 1, vec![bt(false, Some(0), vec![TryRecv, Recv]), bt(true, None, vec![])], t2),
+    ]
 }
